@@ -1133,7 +1133,17 @@ class Client():
                                      ])
                     if self.respondent.redirectable and self.respondent.redirectant:
                         self.redirects.append(copy.copy(response))
-                        self.redirect()
+                        try:
+                            self.redirect()
+                        except (ValueError, AttributeError, httping.HTTPException) as ex:
+                            # missing, malformed or refused redirect location
+                            response['errored'] = True
+                            response['error'] = str(ex)
+                            response['redirects'] = copy.copy(self.redirects)
+                            self.redirects = []
+                            self.respondent.redirectant = False
+                            self.responses.append(response)
+                            self.waited = False
                     else:
                         if self.redirects:
                             response['redirects'] = copy.copy(self.redirects)
